@@ -152,6 +152,50 @@ def ord (t : Tup) : M Int :=
   | [x] => pure x
   | _ => throw (.lib "TypeError")
 
+/-! ### `io.BytesIO` as a value: contents and position -/
+
+structure BytesIO where
+  buf : Tup
+  pos : Int
+deriving DecidableEq, Repr
+
+/-- `io.BytesIO(initial)` -/
+def bioNew (b : Tup) : BytesIO := ⟨b, 0⟩
+
+/-- `b.read(n)`: the next `n` octets (`n < 0`: all that is left); the position moves by what was read; past the end: nothing -/
+def bioRead (b : BytesIO) (n : Int) : Tup × BytesIO :=
+  let rest := b.buf.drop b.pos.toNat
+  let r := if n < 0 then rest else rest.take n.toNat
+  (r, ⟨b.buf, b.pos + r.length⟩)
+
+/-- `b.write(data)`: overwrite at the position, extending the buffer (a gap beyond the end is filled with zero octets);
+    writing nothing changes nothing -/
+def bioWrite (b : BytesIO) (data : Tup) : Int × BytesIO :=
+  if data.isEmpty then (0, b)
+  else
+    let p := b.pos.toNat
+    let buf := (b.buf.take p ++ List.replicate (p - b.buf.length) 0) ++ data ++ b.buf.drop (p + data.length)
+    (data.length, ⟨buf, b.pos + data.length⟩)
+
+/-- `b.seek(n, whence)`: absolute (`ValueError` when negative), relative to the position or to the end (clipped at 0) -/
+def bioSeek (b : BytesIO) (n whence : Int) : M (Int × BytesIO) :=
+  if whence = 0 then (if n < 0 then throw (.lib "ValueError") else pure (n, ⟨b.buf, n⟩))
+  else if whence = 1 then (let p := if b.pos + n < 0 then 0 else b.pos + n; pure (p, ⟨b.buf, p⟩))
+  else if whence = 2 then (let p := if (b.buf.length : Int) + n < 0 then 0 else (b.buf.length : Int) + n; pure (p, ⟨b.buf, p⟩))
+  else throw (.lib "ValueError")
+
+/-- octets required where `None` may have arrived: Python's TypeError -/
+def unwrap (x : Option Tup) : M Tup :=
+  match x with
+  | some t => pure t
+  | none => throw (.lib "TypeError")
+
+/-- truth value of `None` / an octet string -/
+def otruthy (x : Option Tup) : Bool :=
+  match x with
+  | some t => !t.isEmpty
+  | none => false
+
 /-- `a <= b` on bytes objects given as tuples of octets: lexicographic, a proper prefix is smaller -/
 def tupLe : Tup → Tup → Bool
   | [], _ => true
